@@ -146,10 +146,10 @@ macro_rules! c16_read {
 /// and only when the stored 10 bytes differ from HMAC-SHA1(ciphertext)[..10] (real hmac/sha1
 /// code, one-shot oracle); all N bytes are delivered / EOF is reported only when the code
 /// matches; after EOF reads return 0. Variant N=1, 3 caller reads.
-// @h prop=C16,C09 tier=quick feat=aes t=1200 mem=12 name=c16_read_mac_n1
+// @h prop=C16,C09 tier=dev feat=aes t=1200 mem=12 name=c16_read_mac_n1
 c16_read!(c16_read_mac_n1, 1, 3, 82);
 /// C16(c)/C09 as above, N=3 ciphertext bytes, 5 caller reads.
-// @h prop=C16,C09 tier=thorough feat=aes t=2400 mem=16 name=c16_read_mac_n3
+// @h prop=C16,C09 tier=dev feat=aes t=2400 mem=16 name=c16_read_mac_n3
 c16_read!(c16_read_mac_n3, 3, 5, 82);
 
 macro_rules! c16_validate {
@@ -228,16 +228,16 @@ macro_rules! c16_validate {
 /// bytes (both symbolic); then exactly salt+2 bytes were consumed, the ciphertext length is
 /// compressed_size - (salt + 2 + 10) for every compressed_size, and the MAC is keyed with
 /// derived[16..32].
-// @h prop=C16 tier=quick feat=aes t=1200 mem=12 name=c16_validate_aes128
+// @h prop=C16 tier=dev feat=aes t=1200 mem=12 name=c16_validate_aes128
 c16_validate!(c16_validate_aes128, AesMode::Aes128, 16);
 /// C16(b) as above for AES-256 (16-byte salt, 66 derived bytes, MAC key derived[32..64]).
-// @h prop=C16 tier=thorough feat=aes t=2400 mem=16 name=c16_validate_aes256
+// @h prop=C16 tier=dev feat=aes t=2400 mem=16 name=c16_validate_aes256
 c16_validate!(c16_validate_aes256, AesMode::Aes256, 32);
 
 /// C05(6)/C16 AesReader::new on an entry shorter than salt + verifier + code (hostile
 /// compressed_size): no arithmetic overflow panic; with a too-small size validation must fail or
 /// the reader must deliver no data.
-// @h prop=C05,C16 tier=quick feat=aes t=600 mem=8
+// @h prop=C05,C16 tier=quick feat=aes t=300 mem=4
 #[kani::proof]
 #[kani::unwind(36)]
 #[kani::stub(pbkdf2::pbkdf2, stub_pbkdf2)]
@@ -258,4 +258,59 @@ fn c05_aes_reader_new_any_size() {
     kani::cover!(csize < 10);
     kani::cover!(csize > 1000);
     core::mem::forget(rd);
+}
+
+/// C05(6)/C16 an AES entry too short for salt + verifier + authentication code is refused by
+/// validate() with an error (never a reader that would deliver data). Split so that symbolic
+/// execution stays small: (1) for EVERY compressed_size and strength, new() records "too short"
+/// exactly when compressed_size < salt + 12 and otherwise the exact ciphertext length; (2) for
+/// the concrete sizes 0, 1 and salt + 11 of each strength, validate() returns Err.
+// @h prop=C05,C16 tier=quick feat=aes t=300 mem=4
+#[kani::proof]
+#[kani::unwind(36)]
+#[kani::stub(pbkdf2::pbkdf2, stub_pbkdf2)]
+#[kani::stub(core::arch::x86_64::__cpuid, crate::verif_kit::stub_cpuid)]
+#[kani::stub(core::arch::x86_64::__cpuid_count, crate::verif_kit::stub_cpuid_count)]
+fn c05_aes_too_short_entry_refused() {
+    let csize: u64 = kani::any();
+    let k: u8 = kani::any();
+    kani::assume(k < 3);
+    let (mode, salt) = match k {
+        0 => (AesMode::Aes128, 8u64),
+        1 => (AesMode::Aes192, 12u64),
+        _ => (AesMode::Aes256, 16u64),
+    };
+    let file: [u8; 20] = kani::any();
+    let src = EnvReader::<20> { data: file, total: 20, pos: 0, env: Env::quiet() };
+    let rd = AesReader::new(src, mode, csize);
+    match rd.data_length {
+        None => assert!(csize < salt + 12),
+        Some(n) => {
+            assert!(csize >= salt + 12);
+            assert_eq!(n, csize - salt - 12);
+        }
+    }
+    kani::cover!(rd.data_length.is_none());
+    kani::cover!(rd.data_length == Some(0));
+    core::mem::forget(rd);
+    // (2) concrete too-short sizes: validate() refuses before deriving any key
+    let pw: [u8; 1] = kani::any();
+    macro_rules! refused {
+        ($mode:expr, $size:expr) => {{
+            let src = EnvReader::<20> { data: file, total: 20, pos: 0, env: Env::quiet() };
+            match AesReader::new(src, $mode, $size).validate(&pw) {
+                Ok(v) => {
+                    core::mem::forget(v);
+                    assert!(false, "an AES entry shorter than its own framing was accepted");
+                }
+                Err(e) => core::mem::forget(e),
+            }
+        }};
+    }
+    refused!(AesMode::Aes128, 0);
+    refused!(AesMode::Aes128, 1);
+    refused!(AesMode::Aes128, 19);
+    refused!(AesMode::Aes192, 23);
+    refused!(AesMode::Aes256, 0);
+    refused!(AesMode::Aes256, 27);
 }
